@@ -97,6 +97,32 @@ def main_losses():
     return _report(fails)
 
 
+def main_single_slack():
+    """networks with one machine (candidates for the fast result routine) and shunt-type elements"""
+    fails = []
+    for name, adder in (
+            ("resistive shunt only", lambda n, b: (pp.create_shunt(n, b[3], q_mvar=0., p_mw=1.2),)),
+            ("ward with resistive constant-impedance part only", lambda n, b: (pp.create_ward(n, b[2], 0.2, 0.1, 0.9, 0.),)),
+            ("capacitor and reactor of equal rating", lambda n, b: (pp.create_shunt(n, b[1], q_mvar=-1.5, p_mw=0.), pp.create_shunt(n, b[3], q_mvar=1.5, p_mw=0.))),
+            ("no shunt", lambda n, b: ())):
+        net = pp.create_empty_network()
+        b = pp.create_buses(net, 4, 20.)
+        pp.create_ext_grid(net, b[0], vm_pu=1.03)
+        for f, t in ((0, 1), (1, 2), (2, 3)):
+            pp.create_line_from_parameters(net, b[f], b[t], 6., 0.12, 0.11, 250., 0.6)
+        pp.create_load(net, b[3], 3., 1.); pp.create_load(net, b[2], 2., .5)
+        adder(net, b)
+        for kw in (dict(), dict(numba=False)):
+            pp.runpp(net, **kw)
+            for q, fr, to in (("p_mw", "p_from_mw", "p_to_mw"), ("q_mvar", "q_from_mvar", "q_to_mvar")):
+                g = net.res_ext_grid[q].sum()
+                c = sum(net["res_" + t][q].sum() for t in ("load", "shunt", "ward"))
+                loss = (net.res_line[fr] + net.res_line[to]).sum()
+                if not np.isclose(g - c, loss, atol=1e-5):
+                    fails.append(f"{name} {kw}: generation - consumption = {g - c:.6f} but the branches lose {loss:.6f} ({q})")
+    return _report(fails)
+
+
 def _report(fails):
     for f in fails:
         print("REPRODUCED:", f)
@@ -106,4 +132,4 @@ def _report(fails):
 
 
 if __name__ == "__main__":
-    {"dc": main_dc, "losses": main_losses}[sys.argv[1] if len(sys.argv) > 1 else "dc"]()
+    {"dc": main_dc, "losses": main_losses, "single_slack": main_single_slack}[sys.argv[1] if len(sys.argv) > 1 else "dc"]()
